@@ -213,6 +213,7 @@ def finish(pm, pid, tier, seed, results, extra, contracts, wall):
     by_backend = {}
     slow = []
     solver_s = 0.0
+    slowest = []
     for r in results:
         if r.get("error"):
             errors.append("%s: %s" % (r.get("name", r["key"]), r["error"]))
@@ -229,6 +230,8 @@ def finish(pm, pid, tier, seed, results, extra, contracts, wall):
             f = fam.setdefault(o["family"], {"n": 0, "proved": 0, "bad": [], "function": r["name"]})
             f["n"] += 1
             solver_s += o["secs"]
+            if o["secs"] >= 2.5:
+                slowest.append({"obligation": o["oid"], "function": r["name"], "secs": o["secs"], "verdict": o["verdict"], "backend": o["info"]})
             if o["verdict"] == "proved":
                 f["proved"] += 1
                 by_backend[o["info"]] = by_backend.get(o["info"], 0) + 1
@@ -346,6 +349,7 @@ def finish(pm, pid, tier, seed, results, extra, contracts, wall):
         "baseline_families": len(anchors), "baseline_families_missing": missing,
         "samples": samples,
         "bounded_and_syntactic_checks": extra,
+        "obligations_over_2.5s": sorted(slowest, key=lambda x: -x["secs"])[:25],
         "known_findings_open": [f["what"] for f in findings],
         "explanation": getattr(pm, "EXPLANATION", ""),
         "vacuity": {"precondition_satisfiable_checked_per_function": True,
